@@ -750,6 +750,30 @@ pub fn gen_calls(w: &mut impl Write, thorough: bool, seed: u64) {
 /// access instruction and width, on layouts with empty / non-empty packet and metadata buffers.
 pub fn gen_memprobe(w: &mut impl Write, thorough: bool, seed: u64) {
     let mut r = Rng::new(seed ^ 0xb0b);
+    // the stack through r10 itself (the frame pointer as base register, not a copy of it), in the entry function and inside callees at
+    // local-call depth 1 and 2, where r10 has been lowered by the callers' frame sizes (256 each by default, 64 with calculator 0x40):
+    // every offset within 9 bytes of the bottom and of the top of the 512-byte stack as seen from that r10
+    {
+        let wds: [(u8, u8, u8, i64); 4] = [(0x71, 0x72, 0x73, 1), (0x69, 0x6a, 0x6b, 2), (0x61, 0x62, 0x63, 4), (0x79, 0x7a, 0x7b, 8)];
+        for depth in 0..3usize { for (calc, frame) in [("-", 256i64), ("40", 64)] {
+            if depth == 0 && calc != "-" { continue; }
+            let lowered = frame * depth as i64;                    // r10 of the probing function = top - lowered
+            for edge in [-(512 - lowered), lowered] { for delta in -9i64..=9 {
+                let off = edge + delta;
+                if off < -32768 || off > 32767 { continue; }
+                for &(ldx, st, stx, wd) in &wds { for kind in 0..4 {
+                    if kind == 3 && wd < 4 { continue; }
+                    if !thorough && (delta + wd + kind as i64 + depth as i64).rem_euclid(2) != 0 && delta.abs() > wd { continue; }
+                    let probe = match kind { 0 => ins(ldx, 0, 10, off as i16, 0), 1 => ins(st, 10, 0, off as i16, 0x5a5a5a5a), 2 => ins(stx, 10, 2, off as i16, 0),
+                        _ => ins(if wd == 4 { 0xc3 } else { 0xdb }, 10, 2, off as i16, 0) };
+                    let mut p: Vec<u8> = vec![]; init_regs(&mut p);
+                    for _ in 0..depth { p.extend(ins(0x85, 0, 1, 0, 1)); p.extend(EXIT); }      // call next; exit
+                    p.extend(probe); p.extend(EXIT);
+                    writeln!(w, "exec tag=memprobe prog={} mem=- mbuff=- calc={} budget=300", hex(&p), calc).unwrap();
+                } }
+            } }
+        } }
+    }
     let widths: [(u8, u8, u8, u8, u8, i64); 4] = [(0x71, 0x72, 0x73, 0x30, 0x50, 1), (0x69, 0x6a, 0x6b, 0x28, 0x48, 2), (0x61, 0x62, 0x63, 0x20, 0x40, 4), (0x79, 0x7a, 0x7b, 0x38, 0x58, 8)];
     let layouts: &[(usize, usize)] = &[(64, 0), (64, 32), (0, 32), (0, 0), (8, 0), (1, 8)];
     for &(ml, bl) in layouts {
